@@ -197,8 +197,14 @@ def check_case(case) -> Outcome:
             # copies computed as 1.0000000000000002 in one row order and 1.0 in the other)
             out.label("threshold_ambiguous")
             continue
+        differing = set(base_list) ^ set(other)
+        perfectly_correlated = [f for f in differing if f in quant and not math.isnan(measure.get(f, float("nan"))) and abs(measure[f]) < 1e-9]
         if enc[0] == "negate" and default_distance and touched in quant:
             sig = "RegressionSelector/float/distance_measure/negation"
+        elif default_distance and perfectly_correlated:
+            # 1-r of a feature perfectly correlated with y is 0.0 or 2e-16 depending on the summation order:
+            # 0.0 is falsy -> 'undefined' -> dropped; the same root cause as the planted-copy finding
+            sig = "RegressionSelector/float/distance_measure/planted-copy"
         else:
             sig = f"selection-changed-under-re-encoding:{enc[0]}"
         out.violate(sig, f"{enc!r} (feature {touched}): base selection {base_list} vs re-encoded {other}; n_best={n_best}, thresh_corr={cfg['thresh_corr']}")
